@@ -20,6 +20,9 @@ def run(tier, seed):
         rep.add(ob)
     for ob in frames.rhs_obligations():
         rep.add(ob)
+    from ..symnum import odeint_body
+    for ob in odeint_body.obligations():
+        rep.add(ob)
     rep.level = 'other'
     rep.functions.append(dict(file='EoN/analytic.py', qualname='all *_from_graph and *_pure_IC entry points (E3); every function (binding, names)'))
     rep.explanation = ('Unbounded part: every internal call site of analytic.py binds the wrapper parameters (initial sets, rho, time grid, flags, '
